@@ -4,10 +4,30 @@ use crate::explore::*;
 use crate::ops::*;
 use crate::queue::*;
 use crate::types::*;
+use crate::with_q;
 
 pub fn replay_probe<H: HB>(c: &Case, q: &AnyQ<H>, m: &Model, unordered: bool) -> Result<(), String> {
     let name = c.probe.clone().unwrap_or_default();
-    for p in all_probes::<H>(&c.prop) {
+    match name.as_str() {
+        "extend-differential" => {
+            if let Some(Op::Extend(seq, _)) = &c.last {
+                return crate::post::extend_differential(q, m, &c.universe, &[seq.clone()], true).map(|_| ()).map_err(|e| e.1);
+            }
+        }
+        "from_iter-differential" => {
+            if let Root::FromIter(seq, _) = &c.root {
+                return crate::post::from_iter_differential::<H>(c.double, &c.universe, seq, true).map(|_| ()).map_err(|e| e.1);
+            }
+        }
+        "append-pair" | "eq-pair" => {
+            if let Some((d, r, ops)) = &c.aux {
+                let (b, _, _) = crate::post::rebuild_state::<H>(*d, r, ops, &c.universe)?;
+                return if name == "append-pair" { crate::post::append_pair(q, &b, &c.universe) } else { crate::post::eq_pair(q, &b) };
+            }
+        }
+        _ => {}
+    }
+    for p in all_probes::<H>(&c.prop, &c.universe) {
         if name == "state-probes" || p.name() == name {
             p.on_state(q, m, unordered)?;
         }
@@ -15,6 +35,396 @@ pub fn replay_probe<H: HB>(c: &Case, q: &AnyQ<H>, m: &Model, unordered: bool) ->
     Ok(())
 }
 
-pub fn all_probes<H: HB>(_prop: &str) -> Vec<Box<dyn Probe<H>>> {
-    vec![]
+/// The probes a property attaches to its explorers (also used by replay).
+pub fn all_probes<H: HB>(prop: &str, universe: &[u32]) -> Vec<Box<dyn Probe<H>>> {
+    let prios: Vec<i32> = vec![0, 1, 2];
+    match prop {
+        "C06" => vec![Box::new(IterPrograms { which: vec![It::Sorted], extra_len: 2, sorted_vecs: true, adaptors: false })],
+        "C09" => vec![Box::new(IterMutPrograms { extra_len: 3, prios })],
+        "C13" => vec![Box::new(IterPrograms { which: vec![It::Iter, It::IterRef, It::IntoIter, It::Drain, It::Sorted], extra_len: 2, sorted_vecs: false, adaptors: true })],
+        "C16" => vec![Box::new(EmptiedLikeFresh { universe: universe.to_vec(), prios })],
+        _ => vec![],
+    }
+}
+
+#[derive(Clone, Copy, Debug, PartialEq, Eq)]
+pub enum It {
+    Iter,
+    IterRef,
+    IntoIter,
+    Drain,
+    Sorted,
+}
+
+/// What a sorted iterator must yield: `Some(true)` = a current maximum, `Some(false)` = a minimum.
+#[derive(Clone, Copy)]
+struct SortedSpec {
+    front_is_max: bool,
+}
+
+/// Drive `it` through `prog` (false = next, true = next_back), checking the iterator contracts.
+fn drive<T>(
+    what: &str,
+    it: &mut dyn DynIter<T>,
+    prog: &[bool],
+    m: &Model,
+    conv: &dyn Fn(&T) -> (Pair, usize, usize),
+    sorted: Option<SortedSpec>,
+    keep: &mut Vec<T>,
+    strict_hint: bool,
+) -> Result<(), String> {
+    let n = m.len();
+    let mut remaining = n;
+    let mut yielded: Vec<u32> = vec![];
+    let mut addrs: Vec<(usize, usize)> = vec![];
+    let check_len = |it: &dyn DynIter<T>, remaining: usize, at: usize| -> Result<(), String> {
+        let h = it.hint();
+        match it.xlen() {
+            Some(l) => {
+                if l != remaining {
+                    return Err(format!("{what}: len() = {l} before call {at} of {prog:?}, but {remaining} elements remain"));
+                }
+                if strict_hint && h != (remaining, Some(remaining)) {
+                    return Err(format!("{what}: declares ExactSizeIterator but size_hint() = {h:?} with {remaining} elements remaining (call {at} of {prog:?})"));
+                }
+            }
+            None => {
+                if h.0 > remaining || h.1.map_or(false, |u| u < remaining) {
+                    return Err(format!("{what}: size_hint() = {h:?} is wrong with {remaining} elements remaining"));
+                }
+            }
+        }
+        Ok(())
+    };
+    for (at, &back) in prog.iter().enumerate() {
+        check_len(it, remaining, at)?;
+        let r = if back {
+            match it.nb() {
+                Some(r) => r,
+                None => return Err(format!("{what}: next_back not offered")),
+            }
+        } else {
+            it.nx()
+        };
+        match r {
+            None => {
+                if remaining != 0 {
+                    return Err(format!("{what}: program {prog:?} got None at call {at} with {remaining} elements remaining"));
+                }
+            }
+            Some(t) => {
+                let (pair, a1, a2) = conv(&t);
+                if remaining == 0 {
+                    return Err(format!("{what}: program {prog:?} yielded {pair:?} at call {at} after exhaustion"));
+                }
+                if yielded.contains(&pair.0) {
+                    return Err(format!("{what}: program {prog:?} yielded item {} twice", pair.0));
+                }
+                if a1 != 0 && addrs.iter().any(|x| x.0 == a1 || x.1 == a2) {
+                    return Err(format!("{what}: program {prog:?} yielded the same element twice (address {a1:#x})"));
+                }
+                if m.get(&pair.0) != Some(&(pair.1, pair.2)) {
+                    return Err(format!("{what}: yielded {pair:?}, the map holds {:?}", m.get(&pair.0)));
+                }
+                if let Some(sp) = sorted {
+                    let rest = m.iter().filter(|(k, _)| !yielded.contains(k)).map(|(_, v)| v.1);
+                    let want_max = sp.front_is_max != back;
+                    let ext = if want_max { rest.max() } else { rest.min() }.unwrap();
+                    if pair.2 != ext {
+                        return Err(format!(
+                            "{what}: program {prog:?} call {at} ({}) yielded priority {} but the {} of what remains is {ext}",
+                            if back { "next_back" } else { "next" },
+                            pair.2,
+                            if want_max { "maximum" } else { "minimum" }
+                        ));
+                    }
+                }
+                yielded.push(pair.0);
+                addrs.push((a1, a2));
+                remaining -= 1;
+                keep.push(t);
+            }
+        }
+    }
+    check_len(it, remaining, prog.len())?;
+    Ok(())
+}
+
+fn programs(len: usize, back: bool) -> Vec<Vec<bool>> {
+    if !back {
+        return vec![vec![false; len]];
+    }
+    (0..(1u32 << len)).map(|x| (0..len).map(|i| x >> i & 1 == 1).collect()).collect()
+}
+
+/// C13 / C06: every next/next_back program on the non-mutable iterators.
+pub struct IterPrograms {
+    pub which: Vec<It>,
+    pub extra_len: usize,
+    pub sorted_vecs: bool,
+    pub adaptors: bool,
+}
+
+impl IterPrograms {
+    fn run<Q: QueueLike>(&self, q: &Q, m: &Model, unordered: bool) -> Result<u64, String> {
+        let n = m.len();
+        let mut cases = 0;
+        let conv_ref = |t: &(&Item, &Prio)| (pair_of(t.0, t.1), t.0 as *const Item as usize, t.1 as *const Prio as usize);
+        let conv_own = |t: &(Item, Prio)| (pair_of(&t.0, &t.1), 0usize, 0usize);
+        for &w in &self.which {
+            if w == It::Sorted && unordered {
+                continue;
+            }
+            // does the type offer next_back?
+            let back = match w {
+                It::Iter => q.q_iter().nb().is_some(),
+                It::IterRef => q.q_iter_ref().nb().is_some(),
+                It::IntoIter => Q::q_new().q_into_iter().nb().is_some(),
+                It::Drain => Q::q_new().q_drain().nb().is_some(),
+                It::Sorted => Q::q_new().q_into_sorted_iter().nb().is_some(),
+            };
+            let len = n + self.extra_len;
+            for prog in programs(len, back) {
+                cases += 1;
+                match w {
+                    It::Iter => {
+                        let mut it = q.q_iter();
+                        drive("iter()", &mut *it, &prog, m, &conv_ref, None, &mut vec![], true)?;
+                    }
+                    It::IterRef => {
+                        let mut it = q.q_iter_ref();
+                        drive("(&queue).into_iter()", &mut *it, &prog, m, &conv_ref, None, &mut vec![], true)?;
+                    }
+                    It::IntoIter => {
+                        let mut it = q.clone().q_into_iter();
+                        drive("into_iter()", &mut *it, &prog, m, &conv_own, None, &mut vec![], true)?;
+                    }
+                    It::Drain => {
+                        let mut c = q.clone();
+                        {
+                            let mut it = c.q_drain();
+                            drive("drain()", &mut *it, &prog, m, &conv_own, None, &mut vec![], true)?;
+                        }
+                        let s = c.snap();
+                        check_state(&c, &s, &Model::new(), false, &[])?;
+                    }
+                    It::Sorted => {
+                        let mut it = q.clone().q_into_sorted_iter();
+                        let spec = SortedSpec { front_is_max: !Q::DOUBLE };
+                        drive("into_sorted_iter()", &mut *it, &prog, m, &conv_own, Some(spec), &mut vec![], self.adaptors)?;
+                    }
+                }
+            }
+        }
+        if self.sorted_vecs && !unordered {
+            cases += 1;
+            let key_prio = |v: Vec<Item>| -> Result<Vec<i32>, String> {
+                let mut seen = vec![];
+                let mut out = vec![];
+                for i in &v {
+                    if seen.contains(&i.key) {
+                        return Err(format!("sorted vector holds item {} twice", i.key));
+                    }
+                    seen.push(i.key);
+                    match m.get(&i.key) {
+                        Some(&(pl, p)) if pl == i.payload => out.push(p),
+                        other => return Err(format!("sorted vector holds item {:?}, the map holds {other:?}", i)),
+                    }
+                }
+                if v.len() != m.len() {
+                    return Err(format!("sorted vector has {} of {} elements", v.len(), m.len()));
+                }
+                Ok(out)
+            };
+            let d = key_prio(q.clone().q_into_desc_vec())?;
+            if d.windows(2).any(|w| w[0] < w[1]) {
+                return Err(format!("{} is not non-increasing: priorities {d:?}", if Q::DOUBLE { "into_descending_sorted_vec" } else { "into_sorted_vec" }));
+            }
+            if Q::DOUBLE {
+                let a = key_prio(q.clone().q_into_asc_vec())?;
+                if a.windows(2).any(|w| w[0] > w[1]) {
+                    return Err(format!("into_ascending_sorted_vec is not non-decreasing: priorities {a:?}"));
+                }
+            }
+        }
+        if self.adaptors {
+            for j in 0..=(n + 1) {
+                let mut out = vec![];
+                q.q_adaptor_lens(j, &mut out);
+                check_adaptors(out, n, &mut cases)?;
+            }
+        }
+        Ok(cases)
+    }
+}
+
+impl<H: HB> Probe<H> for IterPrograms {
+    fn name(&self) -> String {
+        format!("iterator-programs{:?}", self.which)
+    }
+    fn on_state(&self, q: &AnyQ<H>, m: &Model, unordered: bool) -> Result<u64, String> {
+        with_q!(q, x => self.run(x, m, unordered))
+    }
+}
+
+fn check_adaptors(out: AdOut, n: usize, cases: &mut u64) -> Result<(), String> {
+    for (label, r) in out {
+        *cases += 1;
+        match r {
+            Err(e) => return Err(format!("{label} panicked on a queue of {n}: {e}")),
+            Ok((l, c)) => {
+                if l != c {
+                    return Err(format!("{label} = {l} but the adaptor yields {c} elements (queue of {n})"));
+                }
+            }
+        }
+    }
+    Ok(())
+}
+
+/// C09: every next/next_back program on iter_mut, references kept alive, written through at the end.
+pub struct IterMutPrograms {
+    pub extra_len: usize,
+    pub prios: Vec<i32>,
+}
+
+impl IterMutPrograms {
+    fn run<Q: QueueLike>(&self, q: &Q, m: &Model, _unordered: bool) -> Result<u64, String> {
+        let n = m.len();
+        let mut cases = 0;
+        let back = iter_mut_offers_back(q);
+        let conv = |t: &(&mut Item, &mut Prio)| (pair_of(t.0, t.1), &*t.0 as *const Item as usize, &*t.1 as *const Prio as usize);
+        let universe: Vec<u32> = m.keys().copied().collect();
+        for len in 0..=(n + self.extra_len) {
+            for prog in programs(len, back) {
+                for via_ref in [false, true] {
+                    for write in [false, true] {
+                        cases += 1;
+                        let mut c = q.clone();
+                        let mut mm = m.clone();
+                        {
+                            let mut it = if via_ref { c.q_iter_mut_ref() } else { c.q_iter_mut() };
+                            let mut keep: Vec<(&mut Item, &mut Prio)> = vec![];
+                            let what = format!("iter_mut(){}", if via_ref { " via &mut queue" } else { "" });
+                            drive(&what, &mut *it, &prog, m, &conv, None, &mut keep, true)?;
+                            if write {
+                                // every reference handed out is still alive: write through all of them
+                                for (j, (i, p)) in keep.iter_mut().enumerate() {
+                                    let np = self.prios[(j + i.key as usize) % self.prios.len()];
+                                    **p = Prio::new(np);
+                                    mm.get_mut(&i.key).unwrap().1 = np;
+                                }
+                            }
+                            drop(keep);
+                            drop(it);
+                        }
+                        let s = c.snap();
+                        check_state(&c, &s, &mm, false, &universe).map_err(|e| format!("after iter_mut program {prog:?} (write={write}) was dropped: {e}"))?;
+                    }
+                }
+            }
+        }
+        for j in 0..=(n + 1) {
+            let mut out = vec![];
+            q.q_adaptor_lens_mut(j, &mut out);
+            check_adaptors(out, n, &mut cases)?;
+        }
+        Ok(cases)
+    }
+}
+
+impl<H: HB> Probe<H> for IterMutPrograms {
+    fn name(&self) -> String {
+        "iter_mut-programs".into()
+    }
+    fn on_state(&self, q: &AnyQ<H>, m: &Model, unordered: bool) -> Result<u64, String> {
+        with_q!(q, x => self.run(x, m, unordered))
+    }
+}
+
+/// C16: a queue emptied by clear/drain behaves like a fresh one: every operation sequence of
+/// depth <= 2 gives the same returns and the same tables.
+pub struct EmptiedLikeFresh {
+    pub universe: Vec<u32>,
+    pub prios: Vec<i32>,
+}
+
+impl EmptiedLikeFresh {
+    fn continuations<Q: QueueLike>(&self, emptied: &Q, how: &str) -> Result<u64, String> {
+        let fresh = Q::q_new();
+        let se = emptied.snap();
+        let sf = fresh.snap();
+        if se != sf {
+            return Err(format!("after {how} the tables are {se:?}, a fresh queue has {sf:?}"));
+        }
+        check_state(emptied, &se, &Model::new(), false, &self.universe).map_err(|e| format!("after {how}: {e}"))?;
+        if emptied.q_peek_hi().is_some() || (Q::DOUBLE && emptied.q_peek_lo().is_some()) {
+            return Err(format!("after {how} a peek returns an element"));
+        }
+        let mut ops: Vec<Op> = vec![Op::PopHi];
+        if Q::DOUBLE {
+            ops.push(Op::PopLo);
+        }
+        for &k in &self.universe {
+            for &p in &self.prios {
+                ops.push(Op::Push(k, 0, p));
+                ops.push(Op::PushInc(k, 0, p));
+                ops.push(Op::Change(k, p, false));
+            }
+            ops.push(Op::Remove(k, false));
+        }
+        ops.push(Op::Clear);
+        ops.push(Op::Drain { front: 1, back: 0, end: End::Drop });
+        let mut cases = 0;
+        for o1 in &ops {
+            for o2 in &ops {
+                cases += 1;
+                let mut a = emptied.clone();
+                let mut b = Q::q_new();
+                let mut ma = Model::new();
+                let mut mb = Model::new();
+                let (mut ua, mut ub) = (false, false);
+                for o in [o1, o2] {
+                    let ra = step(&mut a, o, &mut ma, &mut ua).map_err(|e| format!("after {how}, then {o1:?},{o2:?}: {e}"))?;
+                    let rb = step(&mut b, o, &mut mb, &mut ub)?;
+                    let (sa, sb) = (a.snap(), b.snap());
+                    if ra != rb || sa != sb {
+                        return Err(format!("after {how}, {o1:?},{o2:?} behaves differently from a fresh queue: {ra:?}/{sa:?} vs {rb:?}/{sb:?}"));
+                    }
+                    check_state(&a, &sa, &ma, false, &self.universe).map_err(|e| format!("after {how}, then {o1:?},{o2:?}: {e}"))?;
+                }
+            }
+        }
+        Ok(cases)
+    }
+
+    fn run<Q: QueueLike>(&self, q: &Q, m: &Model) -> Result<u64, String> {
+        let n = m.len();
+        let mut cases = 0;
+        let mut c = q.clone();
+        c.q_clear();
+        cases += self.continuations(&c, "clear()")?;
+        for f in 0..=(n + 1) {
+            for b in 0..=(n + 1 - f) {
+                for end in [End::Drop, End::Forget] {
+                    let mut c = q.clone();
+                    let mut mm = m.clone();
+                    let mut un = false;
+                    let op = Op::Drain { front: f as u8, back: b as u8, end };
+                    step(&mut c, &op, &mut mm, &mut un)?;
+                    cases += self.continuations(&c, &format!("{op:?}"))?;
+                }
+            }
+        }
+        Ok(cases)
+    }
+}
+
+impl<H: HB> Probe<H> for EmptiedLikeFresh {
+    fn name(&self) -> String {
+        "emptied-behaves-like-fresh".into()
+    }
+    fn on_state(&self, q: &AnyQ<H>, m: &Model, _unordered: bool) -> Result<u64, String> {
+        with_q!(q, x => self.run(x, m))
+    }
 }
